@@ -89,6 +89,9 @@ func (c *ctx) mapOrder() {
 					case *ast.IncDecStmt:
 					case *ast.BranchStmt:
 					case *ast.IfStmt:
+						if isLazyInit(info, s) {
+							continue // `if m == nil { m = make(...) }`: the same on whichever iteration it happens
+						}
 						checkStmts(s.Body.List)
 						if s.Else != nil {
 							if b, ok := s.Else.(*ast.BlockStmt); ok {
@@ -256,6 +259,28 @@ func (c *ctx) keyListUses(fc *fileCtx, def *ast.AssignStmt, obj types.Object) st
 		return "the key list in " + id.Name + " is used in iteration order (" + where + ")"
 	}
 	return ""
+}
+
+// isLazyInit: `if x == nil { x = make(...) }` (or a composite literal), nothing else.
+func isLazyInit(info *types.Info, is *ast.IfStmt) bool {
+	if is.Init != nil || is.Else != nil || len(is.Body.List) != 1 {
+		return false
+	}
+	x, isNil := astx.EqNil(info, is.Cond)
+	as, ok := is.Body.List[0].(*ast.AssignStmt)
+	if x == nil || !isNil || !ok || as.Tok != token.ASSIGN || len(as.Lhs) != 1 || len(as.Rhs) != 1 {
+		return false
+	}
+	if types.ExprString(as.Lhs[0]) != types.ExprString(x) {
+		return false
+	}
+	switch r := astx.Unparen(as.Rhs[0]).(type) {
+	case *ast.CallExpr:
+		return astx.IsBuiltin(info, r, "make")
+	case *ast.CompositeLit:
+		return len(r.Elts) == 0
+	}
+	return false
 }
 
 func declOf(fc *fileCtx, o types.Object) *ast.Ident {
